@@ -69,6 +69,61 @@ class CopyPropertyGroups(Contract):
         ctx.oblige("freedom-is-decided-by-a-live-lookup-of-the-group-identifier", len(looks) == 1 and looks[0]["uid"] is e["pg_uid"])
 
 
+class CopyPropertyGroupsSkippedMember(Contract):
+    """The same function when the map of copied children is partial (classes rebuild some children on
+    the copy instead of copying them: those are not keys of the map): a group listing such a member is
+    refused (KeyError, nothing created); a group is never written with a member under some other
+    identifier -- the copied group would name data that are not children of the copy."""
+    target = "geoh5py/workspace/workspace.py::Workspace.copy_property_groups"
+    variant = "member-without-a-copy"
+    props = ("C12", "C02")
+    bounded_scope = "groups of 0-3 members (unrolled); which members have a copy is symbolic"
+
+    def cases(self):
+        return [0, 1, 2, 3]
+
+    def setup(self, ctx):
+        from geoh5py.workspace import Workspace
+
+        n = ctx.case
+        map_f = z3.Function(fresh_name("map"), z3.IntSort(), z3.IntSort())
+        in_f = z3.Function(fresh_name("copied"), z3.IntSort(), z3.BoolSort())
+        members = [sym(f"member_{i}", "uid") for i in range(n)]
+        data_map = SDict("uid", lambda k: in_f(to_z3(k)), lambda k: mk(map_f(to_z3(k)), "uid"), tag="data_map")
+        pg = AbsObj("pg", {"properties": PList(members) if n else None, "association": Opaque("assoc"), "name": sym("pg_name", "str"), "property_group_type": sym("pg_type", "str"), "uid": sym("pg_uid", "uid")})
+        ws = AbsObj("target-workspace", {}, {"find_property_group": lambda I, a, kw: None})
+
+        def focpg(I, a, kw):
+            I.event("create_group", kw=kw)
+            return Opaque("new-group")
+
+        entity = AbsObj("new-object", {"workspace": ws}, {"find_or_create_property_group": focpg})
+        ctx.env.update(members=members, map_f=map_f, in_f=in_f)
+        return [Workspace, entity, PList([pg]), data_map], {}
+
+    def post(self, ctx, result):
+        e = ctx.env
+        creates = [p["kw"] for k, p in ctx.path.events if k == "create_group"]
+        ctx.oblige("one-group-created", len(creates) == 1)
+        if len(creates) != 1:
+            return
+        newp = creates[0].get("properties")
+        if not e["members"]:
+            ctx.oblige("a-group-without-members-stays-without", newp is None or (isinstance(newp, PList) and not newp.items))
+            return
+        ok = isinstance(newp, PList) and len(newp.items) == len(e["members"])
+        ctx.oblige("as-many-members-as-the-source", ok)
+        if ok:
+            for i, (m, got) in enumerate(zip(e["members"], newp.items)):
+                ctx.oblige(f"member-{i}-had-a-copy-and-the-copy-is-listed", z3.And(e["in_f"](m.e), to_z3(got) == e["map_f"](m.e)),
+                           note="a member without a copy was listed under some other identifier (or a copied one under the wrong identifier)")
+
+    def post_raises(self, ctx, sig):
+        e = ctx.env
+        ctx.oblige("refused-only-when-some-member-has-no-copy", z3.And(sig.exc_class is KeyError, z3.Or(*[z3.Not(e["in_f"](m.e)) for m in e["members"]]) if e["members"] else z3.BoolVal(False)), kind="post-exc")
+        ctx.oblige("a-refused-group-is-not-created", not [1 for k, p in ctx.path.events if k == "create_group"], kind="post-exc")
+
+
 class ObjectCopyTargets(Contract):
     """ObjectBase.copy writes only through the copy's workspace (abstract execution)."""
     target = "geoh5py/objects/object_base.py::ObjectBase.copy"
@@ -431,7 +486,7 @@ class CellCopyTargets(ObjectCopyTargets):
         return args, kw
 
 
-CONTRACTS = [CopyPropertyGroups, ObjectCopyTargets, CopyNative, GroupCopyNative]  # Grid/Cell variants: path explosion / different shape, left to the native part
+CONTRACTS = [CopyPropertyGroups, CopyPropertyGroupsSkippedMember, ObjectCopyTargets, CopyNative, GroupCopyNative]  # Grid/Cell variants: path explosion / different shape, left to the native part
 
 
 class CopyEqualsByKind(Contract):
